@@ -446,7 +446,7 @@ class ScheduleNTasksInTimeIntervals(TaskConstraint):
             # for this task, the logic expression is that any of its start or end must be
             # between two consecutive intervals
             bools_for_this_task = []
-            inside_conditions = []
+            outside_conditions = []
             for time_interval in self.list_of_time_intervals:
                 task_in_time_interval = z3.Bool(
                     f"InTimeIntervalTask_{task.name}_{uuid.uuid4().int}"
@@ -466,12 +466,13 @@ class ScheduleNTasksInTimeIntervals(TaskConstraint):
                 asst = z3.Implies(task_in_time_interval, z3.And(cstrs))
                 self.set_z3_assertions(asst)
                 bools_for_this_task.append(task_in_time_interval)
-                inside_conditions.append(
-                    z3.And(task._start >= lower_bound, task._end <= upper_bound)
+                outside_conditions.append(
+                    z3.Or(task._end <= lower_bound, task._start >= upper_bound)
                 )
-            # a task that lies inside one of the time intervals has to be counted
+            # a task is either counted in one of the time intervals, or it lies
+            # outside all of them
             self.set_z3_assertions(
-                z3.Implies(z3.Or(inside_conditions), z3.Or(bools_for_this_task))
+                z3.Or(z3.Or(bools_for_this_task), z3.And(outside_conditions))
             )
             # only one maximum bool to True from the previous possibilities
             asst_tsk = z3.PbLe(
